@@ -260,6 +260,58 @@ func c13CatalogCache(c *Ctx, r string) {
 		q := &pathQ{fn: f, fromEntry: true, to: storeTo("Engine.cachedCatalog"), barrier: sameVersion}
 		c.check(len(sites(f, storeTo("Engine.cachedCatalog"))) > 0 && q.bypass() == nil, r, fnName(f)+":publish-only-if-version-unchanged", c.pos(f.Pos()), "the cache is filled only on the version-equal edge", "a catalog can be published into the cache although a DDL was committed since the transaction opened")
 	}
+	// every publication, wherever it is made: a catalog loaded by a transaction is put into the cache only on an edge
+	// where the version is still the one observed when that transaction opened (otherwise a DDL committed meanwhile was
+	// just invalidated away and the catalog published is older than it: later transactions clone a catalog without
+	// the new unique index / table)
+	{
+		np := 0
+		for _, f := range c.allFns {
+			if !fnInPkgs(f, []string{"embedded/sql"}) || len(f.Blocks) == 0 {
+				continue
+			}
+			for i, st := range sites(f, storeTo("Engine.cachedCatalog")) {
+				if desc(st.(*ssa.Store).Val) == "nil" {
+					continue
+				}
+				np++
+				versionEq := func(b *ssa.BasicBlock, si int) bool {
+					if len(b.Instrs) == 0 {
+						return false
+					}
+					ifi, ok := b.Instrs[len(b.Instrs)-1].(*ssa.If)
+					if !ok {
+						return false
+					}
+					bo, ok := ifi.Cond.(*ssa.BinOp)
+					if !ok || (bo.Op != token.EQL && bo.Op != token.NEQ) {
+						return false
+					}
+					isLoad := func(v ssa.Value) bool {
+						cl, ok := v.(*ssa.Call)
+						return ok && strings.HasSuffix(calleeName(&cl.Call), "atomic.(*Uint64).Load") && strings.Contains(desc(cl.Call.Args[0]), "cachedCatalogVersion")
+					}
+					if !isLoad(bo.X) && !isLoad(bo.Y) {
+						return false
+					}
+					return (bo.Op == token.EQL && si == 0) || (bo.Op == token.NEQ && si == 1)
+				}
+				dom := false
+				for _, b := range f.Blocks {
+					for si := range b.Succs {
+						if versionEq(b, si) && edgeDominates(b, si, st.Block()) {
+							dom = true
+						}
+					}
+				}
+				c.check(dom, r, fmt.Sprintf("%s:publication#%d:version-unchanged", fnName(f), i), c.pos(st.Pos()), "published on the version-equal edge",
+					"a catalog is put into the engine's cache without comparing the cache version with the one observed when the transaction opened: a DDL committed in between is lost from the cache, later transactions work on a catalog without it (a UNIQUE index created meanwhile is not enforced)")
+			}
+		}
+		if np < 1 {
+			c.undecided(r, "publications", "no publication into Engine.cachedCatalog found")
+		}
+	}
 	if f := c.mustFn(r, sqlTxT+"Commit"); f != nil {
 		mut := whenCond(false, func(a string) bool { return hasFieldSuffix(a, "mutatedCatalog") })
 		// on the mutatedCatalog edge the cache is invalidated before Commit returns successfully
